@@ -245,7 +245,7 @@ SAFE_METHODS = {
     bytes: {"startswith", "endswith", "decode", "split", "splitlines", "strip", "count", "find", "hex", "join"},
     str: {"startswith", "endswith", "strip", "lstrip", "rstrip", "lower", "upper", "casefold", "isspace", "split", "join", "replace",
           "find", "format", "rpartition", "partition", "count", "splitlines", "isdigit", "removeprefix", "removesuffix", "rfind",
-          "index", "isalpha", "isalnum", "title", "capitalize", "rsplit", "zfill", "ljust", "rjust", "center", "expandtabs"},
+          "index", "isalpha", "isalnum", "title", "capitalize", "rsplit", "zfill", "ljust", "rjust", "center", "expandtabs", "isprintable", "isidentifier", "isascii", "isupper", "islower", "isnumeric", "isdecimal", "istitle", "swapcase", "encode", "translate", "rindex", "format_map", "maketrans"},
     _re.Pattern: {"match", "search", "fullmatch", "sub", "findall", "split"},
     _re.Match: {"group", "groups", "start", "end", "span"},
     tuple: {"index", "count"},
